@@ -9,6 +9,12 @@ spec/C04/Sb2RomTrace.tla  TV: traces of the independent executor (c04_rom.py) on
                           bound to the builder input (header fields, section ids, HMAC-table sizes, command for command);
                           traces of SPSDK's own parse() as second observer (clean, tampered, wrong KEK)
 
+spec/C04/Sb2Operands.tla  the operands of the boot commands: 32-bit words and their width classes, pattern replication of FILL, memory-id flags,
+                          Matches(raw header, abstract command) used by the trace form, Encode (ideal writer)
+spec/C04/Sb2OperandsMC.tla  MC + GEN of the operand case space: every command kind x every numeric operand x the boundaries of every width class
+                          (one operand at a time, diagonal; thorough: pairs), header words (build number, section id); lemmas OneClass /
+                          RepAgree / Encodable / WidthSensitive / FieldSensitive; every emitted case is built in EVERY run (operand lane)
+
 Python only drives SPSDK's public classes, runs the executor, projects parse() results and hands traces to TLC.
 """
 import hashlib
@@ -127,7 +133,62 @@ def mk_plain(variant, r, ks_ids):
     raise Machinery(f"no variant {variant}")
 
 
-def concretise(shape, idx, r, plain_tour, residue_tour, ks_ids, big_loads):
+def unl(p):
+    return (p[0] << 16) | p[1]
+
+
+def mk_case(c, ks_id, zero_filling):
+    """Operand case emitted by TLC (Sb2OperandsMC) -> (abstract command = the case itself, constructor description).
+    Python derives only the constructor arguments; the expectation handed to the trace form is the record TLC emitted."""
+    k, opt = c["k"], c["opt"]
+    a, n, x, f = unl(c["a"]), unl(c["n"]), unl(c["x"]), c["f"]
+    m = (c["m"][0] << 8) | c["m"][1]
+    given = {key: c[key] for key in ("k", "a", "n", "x", "f", "m", "d")}
+    if opt == "ksid":
+        given["m"] = [0, ks_id]       # a key-store memory id of the implementation's enumeration (ExtMemId, 1..0xFF)
+    if (opt == "nosp") != (k == "jump" and f == 0) or (opt == "nolen" and (k != "fill" or n != 4)) or (opt == "ksid") != k.startswith("ks_"):
+        raise Machinery(f"operand case with an option the driver does not know: {c}")
+    if k == "fill":
+        return given, ("CmdFill", a, x, None if opt == "nolen" else n)
+    if k == "jump":
+        return given, ("CmdJump", a, x, None if opt == "nosp" else n)
+    if k == "call":
+        return given, ("CmdCall", a, x)
+    if k == "erase":
+        return given, ("CmdErase", a, n, f, m)
+    if k == "enable":
+        return given, ("CmdMemEnable", a, n, m)
+    if k == "prog":
+        return given, ("CmdProg", a, m, n, x)
+    if k == "vercheck":
+        return given, ("CmdVersionCheck", f, n)
+    if k in ("ks_to_nv", "ks_from_nv"):
+        return given, ("CmdKeyStoreRestore" if k == "ks_to_nv" else "CmdKeyStoreBackup", a, ks_id)
+    if k == "load":
+        return given, ("CmdLoad", a, bytes(c["d"]).hex(), m, zero_filling)
+    raise Machinery(f"operand case of an unknown command kind: {c}")
+
+
+def case_label(c):
+    """Name of an operand case for finding keys: the varied operand and its value(s)."""
+    if c["slot"] == "m":
+        val = f"f{c['f']}m{(c['m'][0] << 8) | c['m'][1]:03X}"
+    elif c["slot"] == "len":
+        val = f"{len(c['d'])}"
+    elif c["slot"] == "diag":
+        val = f"{unl(c['a']):X}"
+    elif len(c["slot"]) == 3:          # pair "pxq"
+        val = f"{unl(c[c['slot'][0]]):X},{unl(c[c['slot'][2]]):X}"
+    else:
+        val = f"{unl(c[c['slot']]):X}"
+    return f"{c['slot']}={val}" + (f"/{c['opt']}" if c["opt"] in ("nolen", "nosp") else "")
+
+
+CTR0S = [0, 1, 0xFF, 0x100, 0xFFFF, 0x10000, 0x7FFFFFFF, 0x80000000, 0xFFFF0000, 0xFFFFFFFF - 70000]
+LANE_VERSIONS = [("21", True), ("20u", False), ("21", False), ("20s", False)]
+
+
+def concretise(shape, idx, r, plain_tour, residue_tour, ks_ids, big_loads, lane=None):
     """Abstract shape (TLC) -> builder input: header values, keys, sections with abstract commands and how to construct them."""
     ver = shape["ver"]
     chain = shape["chain"]
@@ -135,8 +196,12 @@ def concretise(shape, idx, r, plain_tour, residue_tour, ks_ids, big_loads):
     uids = set()
     for s in shape["secs"]:
         cmds = []
+        labs = []
         for blocks in s["cmds"]:
-            if blocks == 0:
+            labs.append(case_label(blocks) if isinstance(blocks, dict) else None)
+            if isinstance(blocks, dict):     # operand lane: a case emitted by TLC
+                cmds.append(mk_case(blocks, ks_ids[(idx + len(cmds)) % len(ks_ids)], r.random() < 0.5))
+            elif blocks == 0:
                 v = plain_tour[0]
                 plain_tour.append(plain_tour.pop(0))
                 cmds.append(mk_plain(v, r, ks_ids))
@@ -150,16 +215,22 @@ def concretise(shape, idx, r, plain_tour, residue_tour, ks_ids, big_loads):
                 zf = r.random() < 0.5
                 cmds.append((acmd("load", a=a, m=m, d=data), ("CmdLoad", a, data.hex(), m, zf)))
         uid = w32(r)
+        if lane and lane.get("hdr") and not secs:
+            uid = unl(lane["hdr"]["n"])
         while uid in uids:
             uid = r.getrandbits(32)
         uids.add(uid)
-        secs.append({"uid": uid, "hmacReq": s["hm"], "zero": r.random() < 0.5, "cmds": cmds})
+        secs.append({"uid": uid, "hmacReq": s["hm"], "zero": r.random() < 0.5, "cmds": cmds, "labs": labs})
     pv = [r.choice([0, 1, 9, 10, 99, 999, 1234, 9999]) for _ in range(3)]
     cv = list(pv) if r.random() < 0.3 else [r.choice([0, 1, 2, 10, 123, 9999, 4567]) for _ in range(3)]
     build = w32(r)
     ts = r.choice([0, 1, 633744000, 2**31 - 1, r.randrange(2**31)])
     nonce = bytearray(r.getrandbits(8) for _ in range(16))
     ctr0 = r.choice([0, 1, 0x7FFFFFFF, 0x80000000, 0xFFFF0000, r.getrandbits(32) & 0xFFFEFFFF, 0xFFFFFFFF - 70000])
+    if lane:
+        ctr0 = CTR0S[lane["no"] % len(CTR0S)]
+        if lane.get("hdr"):
+            build = unl(lane["hdr"]["a"])
     nonce[12:16] = ctr0.to_bytes(4, "little")
     g = {
         "idx": idx, "ver": ver, "sha": shape["sha"], "chain": chain, "pv": pv, "cv": cv, "build": build, "ts": ts, "nonce": bytes(nonce).hex(),
@@ -172,7 +243,31 @@ def concretise(shape, idx, r, plain_tour, residue_tour, ks_ids, big_loads):
         "rkh_as_cert": r.random() < 0.5,
         "secs": secs,
     }
+    if lane:
+        g["lane"] = {"no": lane["no"], "hdr": case_label(lane["hdr"]) if lane.get("hdr") else None}
     return g
+
+
+def lane_shapes(cases, r):
+    """The operand cases of Sb2OperandsMC -> (shape, lane) pairs: one-section files that carry EVERY command case once and every header
+    case once; version / SHA flag / chain / HMAC-table request rotate over the files."""
+    key = lambda c: json.dumps(c, sort_keys=True)  # noqa: E731
+    hdrs = sorted((c for c in cases if c["k"] == "hdr"), key=key)
+    cmds = sorted((c for c in cases if c["k"] != "hdr"), key=key)
+    r.shuffle(hdrs)
+    r.shuffle(cmds)
+    n_files = max(len(hdrs), -(-len(cmds) // 16), 1)
+    signed = [c for c in CHAIN_TAB]
+    out = []
+    for i in range(n_files):
+        ver, sha = LANE_VERSIONS[i % len(LANE_VERSIONS)]
+        mine = cmds[i::n_files]
+        if not mine:
+            mine = [cmds[i % len(cmds)]]
+        shape = {"ver": ver, "sha": sha, "chain": "none" if ver == "20u" else signed[(i // len(LANE_VERSIONS)) % len(signed)],
+                 "secs": [{"hm": 1 + i % 3, "cmds": mine}]}
+        out.append((shape, {"no": i, "hdr": hdrs[i] if i < len(hdrs) else None}))
+    return out
 
 
 def given_record(g):
@@ -445,7 +540,7 @@ def process(sp, job):
     out["len"] = len(data)
     out["sha"] = hashlib.sha256(data).hexdigest()[:16]
     kek = bytes.fromhex(g["kek"])
-    evs = rom.run(data, kek)
+    evs = rom.run(data, kek, max_payload_log=job.get("max_payload", 4096))
     out["traces"].append(mk_trace(f"rom-{idx}", "rom", "clean", with_markers(evs), given=given, idx=idx, ver=ver))
     walked = evs[-1]["ev"] == "Accept"
     ref = ref_of(evs) if walked else None
@@ -513,7 +608,7 @@ def vname(g_or_ver):
     return {"21": "v2.1", "20s": "v2.0-signed", "20u": "v2.0-unsigned"}[g_or_ver]
 
 
-def key_of(t, matched, ver):
+def key_of(t, matched, ver, g=None):
     ev = t["ev"][min(matched, len(t["ev"]) - 1)]
     k = ev["ev"]
     if t["kind"] == "rom":
@@ -523,7 +618,9 @@ def key_of(t, matched, ver):
             secs = t["given"]["secs"]
             s, i = ev.get("sec", 0), ev.get("i", 0)
             kind = secs[s]["cmds"][i]["k"] if 0 <= s < len(secs) and i < len(secs[s]["cmds"]) else "extra-command"
-            return f"C04/cmd/{kind}"
+            labs = g["secs"][s].get("labs") if g and 0 <= s < len(g["secs"]) else None
+            lab = labs[i] if labs and i < len(labs) and kind != "extra-command" else None      # operand lane: the case that failed
+            return f"C04/cmd/{kind}" + (f"/{lab}" if lab else "")
         if k == "BuildFailed":
             return f"C04/build/{vname(ver)}/{ev['exc'].split(':')[0]}"
         return f"C04/rom/{vname(ver)}/{k}"
@@ -732,6 +829,16 @@ def gen_all_child(tier):
     return shapes, counts
 
 
+def operand_cases(tier):
+    """MC + GEN of the operand case space (Sb2OperandsMC): lemmas over every case, every case emitted. -> (cases, TlcResult)"""
+    res = tlc.mc("C04", "Sb2OperandsMC", "Sb2OperandsMC.cfg" if tier == "quick" else "Sb2OperandsMC_t.cfg", workers=1, coverage=False, heap="4g", timeout=600)
+    cases = res.json_prints()
+    if len(cases) != res.distinct or len(cases) < 700:
+        raise Machinery(f"Sb2OperandsMC: {len(cases)} cases emitted, {res.distinct} initial states")
+    res.out = res.out[-3000:]
+    return cases, res
+
+
 def run(tier):
     sp = Spsdk()
     os.environ["TZ"] = "UTC"
@@ -752,6 +859,7 @@ def run(tier):
 
 def _run(tier, sp, v, r, quick, mc_future):
     gen_future = submit(gen_all_child, tier)
+    ops_future = submit(operand_cases, tier)
     canary(v)
     say(f"[C04] canary: {v.extra['canary'][:200]}... ({v.timer.s()}s)")
     shapes, gen_counts = gen_future.result()
@@ -792,6 +900,17 @@ def _run(tier, sp, v, r, quick, mc_future):
         s = {"ver": ver, "sha": ver == "21", "chain": "none" if ver == "20u" else "k0", "secs": [{"hm": 2, "cmds": [0, 1, 0]}]}
         g = concretise(s, len(jobs), rng(PROP, "allbits", ver), plain_tour, residue_tour, sp.ks_ids, [1])
         jobs.append({"g": g, "tamper": 0, "all_bits": (r.randrange(48), 48) if quick else (0, 1)})
+    # operand lane: every case of the operand case space (TLC: Sb2OperandsMC) is built in every run - nothing about it is sampled
+    op_cases, op_mc = ops_future.result()
+    n_lane0 = len(jobs)
+    for shape, lane in lane_shapes(op_cases, rng(PROP, "lane")):
+        g = concretise(shape, len(jobs), rng(PROP, "lanefile", lane["no"]), plain_tour, residue_tour, sp.ks_ids, [1], lane=lane)
+        jobs.append({"g": g, "tamper": 0, "max_payload": 1 << 17})
+    placed = [json.dumps(c, sort_keys=True) for shape, lane in lane_shapes(op_cases, rng(PROP, "lane")) for c in shape["secs"][0]["cmds"] + ([lane["hdr"]] if lane["hdr"] else [])]
+    if set(placed) != {json.dumps(c, sort_keys=True) for c in op_cases}:
+        raise Machinery("operand lane: not every case emitted by TLC was placed into a file")
+    say(f"[C04] operand lane: {len(op_cases)} operand cases (boundaries of every width class, per command kind and operand) enumerated by TLC, "
+        f"placed into {len(jobs) - n_lane0} files ({v.timer.s()}s)")
     results = pmap(lambda job: process(sp, job), jobs, chunksize=2)
     traces = [t for res in results for t in res["traces"]]
     by_idx = {j["g"]["idx"]: j["g"] for j in jobs}
@@ -824,7 +943,7 @@ def _run(tier, sp, v, r, quick, mc_future):
         else:
             matched, length, evname = rej_clean[t["id"]]
             ev = t["ev"][min(matched, len(t["ev"]) - 1)]
-            v.violation(key_of(t, matched, ver), f"{vname(ver)} file #{idx}: {who} trace rejected at event #{matched + 1} ({evname}): {json.dumps(short(ev))[:500]}",
+            v.violation(key_of(t, matched, ver, by_idx[idx]), f"{vname(ver)} file #{idx}: {who} trace rejected at event #{matched + 1} ({evname}): {json.dumps(short(ev))[:500]}",
                         {"g": by_idx[idx], "trace": _strip(t), "rejected_at": matched})
         for name in soft_clean.get(t["id"], []):
             if t["kind"] == "rom":
@@ -876,7 +995,7 @@ def _run(tier, sp, v, r, quick, mc_future):
     v.extra["files"] = {"built": n_built, "bytes": sum(res["len"] for res in results)}
     # coverage of the sampled part
     kinds, residues = {}, set()
-    for j in jobs:
+    for j in jobs[:n_lane0]:
         for s in j["g"]["secs"]:
             for c in s["cmds"]:
                 kinds[c[1][0]] = kinds.get(c[1][0], 0) + 1
@@ -891,6 +1010,16 @@ def _run(tier, sp, v, r, quick, mc_future):
             v.sample({"id": t["id"], "kind": t["kind"], "mode": t["mode"], "version": vname(t["ver"]),
                       "given": {k: x for k, x in t["given"].items() if k != "secs"} if t["given"] else None,
                       "events": [{k: x for k, x in e.items() if k != "payload"} for e in t["ev"][:40]]})
+    lane_stats = {"cases": len(op_cases), "files": len(jobs) - n_lane0, "decoded_as_given": 0, "by_kind": {}}
+    for j in jobs[n_lane0:]:
+        ok = f"rom-{j['g']['idx']}" not in rej_clean and res_by_idx[j["g"]["idx"]]["build"] == "ok"
+        for c in j["g"]["secs"][0]["cmds"]:
+            st = lane_stats["by_kind"].setdefault(c[0]["k"], [0, 0])
+            st[0] += 1
+            st[1] += 1 if ok else 0
+            lane_stats["decoded_as_given"] += 1 if ok else 0
+    v.extra["operand_lane"] = lane_stats
+    v.add_mc(op_mc)
     mcs = mc_future.result()
     for res, n in zip(mcs, gen_counts):
         v.add_mc(res)
@@ -903,12 +1032,17 @@ def _run(tier, sp, v, r, quick, mc_future):
                      "by payload blocks) and proves the automaton accepts each ideal layout with full coverage; a seeded subset of the shapes "
                      "(every version/chain/section-count/HMAC-request combination at least once) is concretised with seeded field values (tour over all "
                      "command classes, all load-length residues mod 16, boundary words), built through the public classes, walked by the independent "
-                     "executor and parsed by SPSDK; evaluations = traces handed to TLC; non-trivial = clean trace accepted to the end, distinct by "
+                     "executor and parsed by SPSDK; OPERAND LANE: TLC enumerates the operand case space (Sb2OperandsMC: command kind x numeric operand x "
+                     "lowest / lowest+1 / highest-1 / highest value of every width class of 1..4 bytes, sign boundary, one interior value per class; one "
+                     "operand at a time and all together; memory ids at the ends of group and device id; header words build number and section id; "
+                     "thorough: pairs of operands) and EVERY case is built, walked and parsed in every run; evaluations = traces handed to TLC; non-trivial = clean trace accepted to the end, distinct by "
                      "SHA-256 of the exported file and observer")
     v.assumptions += [
         "nonce counter word + number of blocks < 2^32 (counter wrap-around in the ROM is not documented)",
         "CmdTag inside a section and empty load data are outside the asserted domain; CmdProg is 8-byte exactly when data_word2 != 0",
         "load: header count may be the given length or the length padded to 16; the given bytes must be a prefix of the payload, padding content is free",
+        "FILL with an explicit length of 0 is outside the asserted domain (the documented default 4 applies to an omitted length); key-store commands of the "
+        "operand lane use the memory ids of SPSDK's ExtMemId enumeration (1..0xFF) in rotation; LOAD lengths of the operand lane stop at 257 bytes",
         "fields the ROM does not use for a command (e.g. count of call/reset/keystore commands, flags of fill) are not constrained; LAST_SECTION flag is not interpreted",
         "SB 2.0: image_length / build number inside the certificate block are not constrained; SB 2.1: image_length = end of certificate block (+32 with SHA allowed)",
         "certificate chains are RSA (2048/3072/4096, 1..3 certificates, all keys of one chain of equal size); max_section_mac_count = sum of HMAC-table sizes "
@@ -934,7 +1068,7 @@ def replay(path):
         cand = [mk_trace(old["id"], old["kind"], old["mode"], old["ev"], given=old["given"], ref=old["ref"], ver=g["ver"], idx=g["idx"])]
         ignore = w.get("soft_clean", [])
     else:
-        res = process(sp, {"g": g, "tamper": 0})
+        res = process(sp, {"g": g, "tamper": 0, "max_payload": (1 << 17) if g.get("lane") else 4096})
         cand = [t for t in res["traces"] if t["kind"] == old["kind"]]
     rej, soft = validate(cand)
     for t in cand:
